@@ -17,7 +17,7 @@ import Stackage.Driver.Closures
 open Stackage.Driver
 
 def dispatch (stream payload : String) : String × String × String :=
-  if ["hist", "histx", "capx", "resets", "nest", "pol", "xfer", "awk"].contains stream then runHist payload
+  if ["hist", "histx", "capx", "resets", "nest", "pol", "xfer", "xferro", "awk"].contains stream then runHist payload
   else if stream == "render" then runRender payload
   else if stream == "strunit" then runStrUnit payload
   else if stream == "rerender" then runRerender payload
